@@ -626,17 +626,17 @@ econf_err econf_writeFile(econf_file *key_file, const char *save_to_dir,
     // Writing heading comments
     if (key_file->file_entry[i].comment_before_key &&
 	strlen(key_file->file_entry[i].comment_before_key) > 0) {
-      char buf[BUFSIZ];
       char *line;
+      /* working on a copy; the comment can have any length */
+      char *buf = strdup(key_file->file_entry[i].comment_before_key);
       char *value_string = buf;
 
-      strncpy(buf,key_file->file_entry[i].comment_before_key,BUFSIZ-1);
-      buf[BUFSIZ-1] = '\0';
-      while ((line = strsep(&value_string, "\n")) != NULL) {
+      while (buf && (line = strsep(&value_string, "\n")) != NULL) {
 	fprintf(kf, "%c%s\n",
 		key_file->comment,
 		line);
       }
+      free(buf);
     }
 
     // Writing values
@@ -651,17 +651,17 @@ econf_err econf_writeFile(econf_file *key_file, const char *save_to_dir,
     // Writing rest of comments
     if (key_file->file_entry[i].comment_after_value &&
 	strlen(key_file->file_entry[i].comment_after_value) > 0) {
-      char buf[BUFSIZ];
       char *line;
+      /* working on a copy; the comment can have any length */
+      char *buf = strdup(key_file->file_entry[i].comment_after_value);
       char *value_string = buf;
 
-      strncpy(buf,key_file->file_entry[i].comment_after_value,BUFSIZ-1);
-      buf[BUFSIZ-1] = '\0';
-      while ((line = strsep(&value_string, "\n")) != NULL) {
+      while (buf && (line = strsep(&value_string, "\n")) != NULL) {
 	fprintf(kf, " %c%s\n",
 		key_file->comment,
 		line);
       }
+      free(buf);
     }
     fprintf(kf, "\n");
   }
